@@ -24,6 +24,22 @@ NAMES = [[b"www", b"example", b"org"], [b"a"], [b"mail", b"t", b"example", b"net
 TYPES = [1, 2, 5, 15, 16, 28, 33, 255, 10, 65399]
 
 
+def rand_name(rng):
+    """Names outside the tunnel domain of every length up to the 253-character maximum."""
+    total = rng.choice([1, 5, 40, 100, 200, 230, 240, 243, 244, 245, 250, 252, 253]) if rng.random() < 0.7 else rng.randint(1, 253)
+    labels = []
+    left = total
+    while left > 0:
+        n = min(left, rng.choice([1, 3, 10, 40, 63]))
+        if left - n == 1:        # a label needs at least one character after the separating dot
+            n = left
+            if n > 63:
+                n = left - 2
+        labels.append(bytes(rng.choice(b"abcdefghijklmnopqrstuvwxyz0123456789-") for _ in range(n)))
+        left -= n + 1
+    return labels
+
+
 class Resolver(kernel.Actor):
     def __init__(self, ip):
         kernel.Actor.__init__(self, ip)
@@ -85,7 +101,7 @@ def scn(params):
             if op == "ask":
                 r = rng.choice(reqs)
                 qid = rng.choice(ids)
-                name = rng.choice(NAMES)
+                name = rng.choice(NAMES) if rng.random() < 0.6 else rand_name(rng)
                 qt = rng.choice(TYPES)
                 sport = rng.choice([53, 1024, 33333, 40000 + rng.randrange(50)])
                 q = proto.build_query(qid, name, qt, edns0=rng.random() < 0.3)
